@@ -3,23 +3,16 @@ import os
 from engines.common import ch_obligations, VERIF
 
 T = '''
-def act_{i}(k1: str, k2: str, two: bool, kind1: int, kind2: int, s: str, n: int, kw1: int, kw2: int) -> bool:
+def act_{i}(two: bool, kind1: int, kind2: int, s: str, n: int, kw1: int, kw2: int) -> bool:
     """
-    pre: len(k1) <= N and len(k2) <= N and len(s) <= N
-    pre: 0 <= kind1 <= 5 and 0 <= kind2 <= 5
-    pre: -1 <= kw1 < {nk} and -1 <= kw2 < {nk}
+    pre: len(s) <= N
+    pre: 0 <= kind1 <= 5 and 0 <= kind2 <= 1
+    pre: 0 <= kw1 < {nk} and 0 <= kw2 <= 2
     post: _
     """
-    # a key is either one of the option names the actions look for (symbolic index) or an arbitrary symbolic string
-    a = k1
-    for j in range({nk}):
-        if kw1 == j:
-            a = KEYWORDS[j]
-    b = k2
-    for j in range({nk}):
-        if kw2 == j:
-            b = KEYWORDS[j]
-    return apply({i}, a, b, two, kind1, kind2, s, n)
+    # option names are chosen by symbolic index from the vocabulary (concrete dict keys); option VALUES stay symbolic
+    kw1, kw2, kind1, kind2 = ci(kw1, {nk} - 1), ci(kw2, 2), ci(kind1, 5), ci(kind2, 1)
+    return apply({i}, KEYWORDS[kw1], ('model', 'storage', 'zz')[kw2], True if two else False, kind1, (0, 2)[kind2], s, n)
 '''
 
 
@@ -29,7 +22,7 @@ def gen():
     os.makedirs(d, exist_ok=True)
     path = os.path.join(d, 'gen_ch_C02.py')
     with open(path, 'w') as f:
-        f.write('from harness.ch_C02 import apply, KEYWORDS, N\n')
+        f.write('from harness.ch_C02 import apply, KEYWORDS, N\nfrom harness.planlib import ci\n')
         for i, prod in enumerate(ch_C02.PRODS):
             f.write(T.format(i=i, nk=len(ch_C02.KEYWORDS)))
     return path, ch_C02.PRODS
@@ -40,22 +33,22 @@ def mk_replay(i):
         from harness import ch_C02
         from mindsdb_sql.exceptions import ParsingException
         prod = ch_C02.PRODS[i]
-        a = ch_C02.KEYWORDS[args['kw1']] if args['kw1'] >= 0 else args['k1']
-        b = ch_C02.KEYWORDS[args['kw2']] if args['kw2'] >= 0 else args['k2']
+        a = ch_C02.KEYWORDS[args['kw1']]
+        b = ('model', 'storage', 'zz')[args['kw2']]
         try:
-            ch_C02.apply(i, a, b, bool(args['two']), args['kind1'], args['kind2'], args['s'], args['n'])
+            ch_C02.apply(i, a, b, bool(args['two']), args['kind1'], (0, 2)[args['kind2']], args['s'], args['n'])
             return False, {'production': str(prod)}, 'x', 'no error'
         except Exception as e:  # noqa
             name = str(prod).split('  [')[0]
             return True, {'production': name, 'options': {a: args['kind1'], b: args['kind2']} if args['two'] else {a: args['kind1']}, 'error': '%s: %s' % (type(e).__name__, e)}, \
-                'action-internal-error:%s:%s' % (prod.func.__name__, type(e).__name__), 'grammar action of `%s` raises %s: %s for options %r' % (name, type(e).__name__, str(e)[:80], a)
+                'action-internal-error:%s:%s' % (prod.func.__name__, type(e).__name__), 'grammar action of `%s` raises %s: %s for option %s = %r' % (name, type(e).__name__, str(e)[:80], a, ch_C02._value(args['kind1'], args['s'], args['n']))
     return replay
 
 
 def add(run, tier):
     path, prods = gen()
-    os.environ['VERIF_STRLEN'] = '3' if tier == 'quick' else '4'
+    os.environ['VERIF_STRLEN'] = '1' if tier == 'quick' else '3'
     specs = [dict(fn='act_%d' % i, twin=None, replay=mk_replay(i), name='U2:%s' % str(p).split('  [')[0][:70]) for i, p in enumerate(prods)]
     run.functions.append('grammar actions of %d option-list productions (symbolic option dict) via SLY YaccProduction' % len(prods))
-    run.assumptions.append('U2 units: option keys are arbitrary strings <= 3/4 chars or one of 8 option names; option values are str/int/Identifier/bool/None/list; other children take one default value each')
-    ch_obligations(run, path, specs, cond_to=200 if tier == 'quick' else 600, path_to=40)
+    run.assumptions.append('U2 units: option names come from a 10-word vocabulary (the names the actions look for + 2 unknown ones), chosen by symbolic index; option values are a symbolic str (<= 3/4 chars) / symbolic int / Identifier / bool / None / list; other children take one default value each')
+    ch_obligations(run, path, specs, cond_to=150 if tier == 'quick' else 600, path_to=40)
